@@ -48,6 +48,7 @@ type Prog struct {
 	allFuncs  map[*ssa.Function]bool
 	facts     map[*ssa.Function]map[*ssa.BasicBlock]FactSet
 	edgeOut   map[*ssa.Function]func(*ssa.BasicBlock, int) FactSet
+	refined   map[*ssa.BasicBlock]FactSet
 	callersOf map[*ssa.Function][]ssa.CallInstruction
 }
 
